@@ -187,7 +187,7 @@ class RegionCoreTree(object):
             raise ValueError((x, y, p))
 
         # Determine which subregion this refers to
-        subregion = ((x >> self.shift) & 0x3) + 4*((y >> self.shift) & 0x3)
+        subregion = int(((x >> self.shift) & 0x3) + 4*((y >> self.shift) & 0x3))
 
         if self.level == 3:
             # If level-3 then we just add to the locally selected regions
